@@ -199,6 +199,12 @@ CODE_ARMS = {"MechCode", "FencedMechCode", "Float", "Mika"}
 EVALUATORS = {"mech_code", "statement", "expression", "eval_fenced_code_block", "section", "section_element", "function_define", "variable_define", "variable_assign"}
 
 
+# the element kinds the property calls prose (titles, paragraphs, lists, quotes, tables, plain code blocks, comments, ..) as they exist at the pinned commit, plus the
+# catch-all error arm `x`; an element kind added later is NOT judged by this pass (it may legitimately be executable): it is listed as not judged
+PROSE_ARMS = {"Prompt", "InfoBlock", "QuestionBlock", "WarningBlock", "ErrorBlock", "IdeaBlock", "SuccessBlock", "Image", "Citation", "Equation", "Abstract", "Diagram",
+              "Subtitle", "CodeBlock", "Comment", "Footnote", "Paragraph", "Grammar", "Table", "QuoteBlock", "ThematicBreak", "List", "FigureTable", "x"}
+
+
 def prose_pass(text):
     """[(arm, ok, detail)] for every arm of `match element` in section_element that is not a code arm"""
     import units.C02 as C02
@@ -212,6 +218,9 @@ def prose_pass(text):
         pm = re.match(r"SectionElement::(\w+)", pat.strip())
         name = pm.group(1) if pm else pat.strip()
         if name in CODE_ARMS:
+            continue
+        if name not in PROSE_ARMS:
+            out.append((name, None, "an element kind the property does not list as prose: not judged"))
             continue
         e = re.sub(r"//[^\n]*", "", expr)
         calls = set(re.findall(r"\b([a-z_]\w*)\s*\(", e))
